@@ -22,6 +22,10 @@ from ._worker import _SimpleProcessQueue, _SimpleThreadQueue
 
 logger = logging.getLogger(__name__)
 
+_GATHER_STOP = '0d8f5a5e-6f0c-4c0e-9a4e-b6c6d1a3e7f2'
+# Put in the output queue by the server, after the servlet has stopped,
+# to end the gather thread.
+
 
 class ServerBacklogFull(RuntimeError):
     def __init__(self, n, x=None):
@@ -250,7 +254,9 @@ class Server:
             self._input_buffer.put(None)
             self._onboard_thread.join()
         self.servlet.stop()
+        self._q_out.put(_GATHER_STOP)
         self._gather_thread.join()
+        self._uid_to_futures.clear()
 
     def call(self, x, /, *, timeout: int | float = 60, backpressure: bool = True):
         """
@@ -371,6 +377,9 @@ class Server:
             while True:
                 z = q_out.get()
                 if z is None:
+                    # One worker has exited. Its peers may still be delivering results.
+                    continue
+                if isinstance(z, str) and z == _GATHER_STOP:
                     break
                 uid, y = z
 
@@ -523,7 +532,9 @@ class AsyncServer:
             self._input_buffer.put(None)
             self._onboard_thread.join()
         self.servlet.stop()
+        self._q_out.put(_GATHER_STOP)
         self._gather_thread.join()
+        self._uid_to_futures.clear()
 
         pipenotfull = self._pipeline_notfull
         notifs = self._pipeline_notfull_notifications
@@ -652,6 +663,9 @@ class AsyncServer:
         while True:
             z = q_out.get()
             if z is None:
+                # One worker has exited. Its peers may still be delivering results.
+                continue
+            if isinstance(z, str) and z == _GATHER_STOP:
                 break
             uid, y = z
             try:
